@@ -19,8 +19,13 @@ import (
 
 // typed value for the typed badger store
 type tval struct {
-	V string `json:"v"`
+	V string   `json:"v"`
+	O string   `json:"o,omitempty"` // set for every second value only: stored documents differ in shape
+	S []string `json:"s,omitempty"`
 }
+
+// rich tells whether the typed form of abstract value v carries the optional members.
+func rich(v string) bool { return len(v) > 0 && (v[len(v)-1]-'0')%2 == 0 }
 
 type c11cfg struct {
 	backend string // mock | badger
@@ -50,7 +55,14 @@ func (w *c11world) abs(v interface{}) string {
 	case nil:
 		return "NONE"
 	case tval:
-		return x.V
+		// the optional members are exactly those the value was written with
+		if rich(x.V) && x.O == "o:"+x.V && len(x.S) == 1 && x.S[0] == "s:"+x.V {
+			return x.V
+		}
+		if !rich(x.V) && x.O == "" && len(x.S) == 0 {
+			return x.V
+		}
+		return fmt.Sprintf("CORRUPT%+v", x)
 	case map[string]interface{}:
 		return fmt.Sprint(x["v"])
 	}
@@ -73,6 +85,9 @@ func (w *c11world) conc(v string) interface{} {
 		return nil
 	}
 	if w.cfg.typed {
+		if rich(v) {
+			return tval{V: v, O: "o:" + v, S: []string{"s:" + v}}
+		}
 		return tval{V: v}
 	}
 	return map[string]interface{}{"v": v}
